@@ -99,4 +99,17 @@ func init() {
 		Quick:    cat(db(100, B{{0, 1}, {1, 1}, {2, 1}}, c11...), db(100, B{{0, 2}, {1, 2}}, "clf-seq3-dial", "clf-seq3-srvclose")),
 		Thorough: cat(db(1500, B{{2, 1}, {3, 1}}, c11...), db(1500, B{{0, 2}, {1, 2}}, c11...), pb(1500, B{{0, 1}}, c11...)),
 	}
+
+	c16one := []string{"shut-idle", "shut-half", "shut-fast", "shut-slow", "shut-smallpipe", "shut-hookfail", "shut-late"}
+	c16two := []string{"shut-2conn", "shut-2conn-idle-fast"}
+	plans["C16"] = Plan{
+		Level: "model_checking",
+		Rule: "all schedules of Shutdown (free-running thread) against connections in each phase {connecting, idle, half request, in handler, response stuck in a 16-byte pipe, " +
+			"failing connect hook, late accept} with the 3 s grace timer firing at any point; distinct = distinct (scenario, outcome) classes. " + boundingNote,
+		Assumptions: []string{timeAssumption, netAssumption, fifoAssumption,
+			"'all per-connection goroutines have ended' is read as 'end without any further external event' (checked at quiescence, not at the instant Shutdown returns)",
+			"a handler may only be cancelled after the grace timer fired or after its client disconnected"},
+		Quick:    cat(db(100, B{{2, 0}, {3, 0}}, c16one...), db(100, B{{2, 0}}, c16two...), pb(100, B{{0, 0}, {1, 0}}, "shut-fast", "shut-late"), db(100, B{{4, 0}}, "shut-late")),
+		Thorough: cat(db(1500, B{{3, 0}, {4, 0}, {5, 0}}, c16one...), db(1500, B{{3, 0}}, c16two...), pb(1500, B{{1, 0}, {2, 0}, {3, 0}}, c16one...)),
+	}
 }
